@@ -654,6 +654,10 @@ class DocumentationAggregator(CMakeListener):
                     getattr(self, f"process_{command}")(ctx, "")
                 elif command == "function" or command == "macro":
                     self.definition_command_stack.append(DefinitionCommand(None, False))
+                elif command in ("cpp_member", "cpp_constructor", "ct_add_test", "ct_add_section"):
+                    # The definition that follows belongs to this (hidden) declaration. It must not be
+                    # credited to an earlier declaration that is still waiting, e.g. a pure virtual member
+                    self.documented_awaiting_function_def = None
 
         except Exception as e:
             line_num = ctx.start.line
